@@ -1,6 +1,8 @@
 package main
 
 import (
+	"go/ast"
+	"go/token"
 	"math/big"
 )
 
@@ -10,11 +12,70 @@ func zFact(name string, f func() *big.Int) Fact {
 	return Fact{Name: name, Gen: func() string { return defZ(name, f()) }}
 }
 
+// c07OrderedIsConfig: in rsm.NewStateMachine the third argument of the
+// newMembership(...) call (the membership object's `ordered` flag) is exactly
+// <cfg>.OrderedConfigChange, directly or through a local variable defined as
+// exactly that - no dependence on the replica's kind (IsWitness, IsNonVoting)
+// or on anything else.
+func c07OrderedIsConfig() bool {
+	p := loadPkg("internal/rsm")
+	fn := p.Func("", "NewStateMachine")
+	locals := map[string]ast.Expr{}
+	multi := map[string]bool{}
+	var arg ast.Expr
+	calls := 0
+	ast.Inspect(fn.Body, func(n ast.Node) bool {
+		switch x := n.(type) {
+		case *ast.AssignStmt:
+			for i, l := range x.Lhs {
+				if id, ok := l.(*ast.Ident); ok && len(x.Lhs) == len(x.Rhs) {
+					if _, seen := locals[id.Name]; seen || x.Tok != token.DEFINE {
+						multi[id.Name] = true
+					}
+					locals[id.Name] = x.Rhs[i]
+				}
+			}
+		case *ast.CallExpr:
+			if id, ok := x.Fun.(*ast.Ident); ok && id.Name == "newMembership" && len(x.Args) == 3 {
+				calls++
+				arg = x.Args[2]
+			}
+		}
+		return true
+	})
+	if calls != 1 {
+		panic("NewStateMachine: expected exactly one newMembership(shard, replica, ordered) call")
+	}
+	for i := 0; i < 4; i++ {
+		if pe, ok := arg.(*ast.ParenExpr); ok {
+			arg = pe.X
+			continue
+		}
+		if id, ok := arg.(*ast.Ident); ok {
+			if e, ok := locals[id.Name]; ok && !multi[id.Name] {
+				arg = e
+				continue
+			}
+		}
+		break
+	}
+	sel, ok := arg.(*ast.SelectorExpr)
+	if !ok || sel.Sel.Name != "OrderedConfigChange" {
+		return false
+	}
+	_, ok = sel.X.(*ast.Ident)
+	return ok
+}
+
 func init() {
 	register(&Unit{Name: "C07", Facts: []Fact{
 		zFact("cc_add_node", func() *big.Int { return loadPkg("raftpb").Const("AddNode") }),
 		zFact("cc_remove_node", func() *big.Int { return loadPkg("raftpb").Const("RemoveNode") }),
 		zFact("cc_add_non_voting", func() *big.Int { return loadPkg("raftpb").Const("AddNonVoting") }),
 		zFact("cc_add_witness", func() *big.Int { return loadPkg("raftpb").Const("AddWitness") }),
+		{Name: "membership_ordered_is_config_ordered", Gen: func() string {
+			return "(* rsm.NewStateMachine: newMembership(_, _, ordered) with ordered = cfg.OrderedConfigChange and nothing else *)\n" +
+				defBool("membership_ordered_is_config_ordered", c07OrderedIsConfig())
+		}},
 	}})
 }
